@@ -490,6 +490,9 @@ def oracle_callback_view(script, obs):
 
 # ---------------------------------------------------------------- per-property configuration
 
+# properties whose checks also evaluate the relation-tier invariant on every stream state
+INV_PROPS = {"C01", "C04", "C05", "C10", "C15", "C16"}
+
 PROPS = {
     "C01": dict(streams=[("store", 120), ("batch", 60), ("relations", 60)], proj=proj_store, theorems=["Properties/C01.v"],
                 oracles=[oracle_go_checks], key_ops={5, 6, 7, 8, 9, 4, 31}),
@@ -627,7 +630,9 @@ def replay_script(arkh, lines, workdir):
     with open(sp, "w") as f:
         f.write("\n".join(lines) + "\n#\n")
     rc, out = sh([arkh, "replay", "-script", sp], timeout=600)
-    impl = [l for l in out.splitlines() if l and not l.startswith("#") and not l.startswith("GOCHECK")]
+    # keep observation lines only (integers): a harness that dies on a malformed candidate script
+    # (shrinking can make one) or on a fatal runtime error prints a Go stack trace
+    impl = [l for l in out.splitlines() if l and re.fullmatch(r"-?\d+( -?\d+)*", l.strip())]
     with open(sp) as f:
         p = subprocess.run([os.path.join(BUILD, "arkmodel")], stdin=f, stdout=subprocess.PIPE, stderr=subprocess.PIPE, timeout=600)
     model = [l for l in p.stdout.decode().splitlines() if l and not l.startswith("#")]
@@ -647,7 +652,11 @@ def shrink(arkh, lines, step, failing, workdir, budget=120):
             cand = ops[:i] + ops[i + 1:]
             tries += 1
             m, o = replay_script(arkh, head + cand, workdir)
-            if failing(m, o, cand):
+            try:
+                still = failing(m, o, cand)
+            except (ValueError, IndexError, KeyError):
+                still = False       # a candidate that cannot be evaluated is not kept
+            if still:
                 ops = cand
                 best = head + ops
         i -= 1
@@ -823,6 +832,29 @@ def _run(pid, tier, seed, replay, cfg, mult, violations, notes, tmp, t0):
             notes.append(gc)
         if rep["raw_mismatch"]:
             corr_broken = True
+    # 4b. the relation-tier invariant (Rel2Defs.st2_b, sound for St2) on every state these scripts reach
+    if pid in INV_PROPS:
+        import invrun
+        inv_states, inv_bad = 0, None
+        for rep in reports:
+            r = invrun.run(BUILD, rep["run"]["workdir"])
+            if r["error"]:
+                path = write_replay(pid, "stream", dict(detail="invariant evaluation failed: " + r["error"]))
+                violations.append((path, "no-failing-input-found")); corr_broken = True
+                continue
+            inv_states += r["states"]
+            if r["violating"] and inv_bad is None:
+                inv_bad = (rep, r["violating"][0])
+        coverage["invariant_states_checked"] = inv_states
+        coverage["invariant"] = "St2 = WF /\\ RelInv /\\ CacheInv (coq/Proofs/Rel2Defs.v), evaluated by the extracted checker after every operation of every script (also at recovered panics)"
+        if inv_bad:
+            rep, (si, k, idx) = inv_bad
+            sc = script_lines(rep["run"], si)[:k + 3]
+            path = write_replay(pid, "script", dict(
+                detail="after this script the world violates the storage/relation invariant St2 (failing check indices %s: 0-17 WF, 18-32 relation bookkeeping and targets, last = cache); the model's state equals the implementation's internal dump at this point" % idx,
+                step=k, script=sc, how_to_run="bin/check %s --replay <this file>" % pid))
+            violations.append((path, ""))
+
     # coverage: distinct non-trivial scripts
     distinct = 0
     sample_script = None
